@@ -59,7 +59,7 @@ class SimProc(object):
     __slots__ = ('pid', 'ppid', 'state', 'wstatus', 'beh', 'rec', 'kind',
                  'spawned_at', 'died_at', 'pending_exit', 'wfd', 'owner',
                  'cause', 'creator', 'stopped', 'held', 'held_exit',
-                 'pending_cause')
+                 'pending_cause', 'died_ncall')
 
     def __init__(self, pid, ppid, beh, kind, t, rec=None, owner=None):
         self.pid = pid
@@ -80,6 +80,7 @@ class SimProc(object):
         self.held = []                # signals pending while stopped
         self.held_exit = None         # (remaining, wstatus, cause) frozen
         self.pending_cause = None
+        self.died_ncall = None        # kernel-call count at death (ordering)
 
 
 class SimKernel(object):
@@ -234,6 +235,7 @@ class SimKernel(object):
             return
         p.wstatus = wstatus
         p.died_at = t
+        p.died_ncall = self.ncalls
         p.pending_exit = None
         p.cause = cause
         parent = self.procs.get(p.ppid)
@@ -241,7 +243,7 @@ class SimKernel(object):
                         (parent is not None and parent.state == 'running'))
         p.state = 'zombie' if parent_alive else 'gone'
         self.death_log.append({"t": t, "pid": pid, "wstatus": wstatus,
-                               "cause": cause})
+                               "cause": cause, "ncall": self.ncalls})
         for fd in list(p.wfd.values()):
             try:
                 os.close(fd)
